@@ -36,6 +36,16 @@ seq_len = z3.Function("seq_len", Val, IntS)         # len() of an opaque sequenc
 seq_at = z3.Function("seq_at", Val, IntS, Val)      # element of an opaque sequence value
 
 
+_ATTR_UF: dict = {}
+
+
+def attr_uf(name):
+    """attribute `name` of an opaque object, as a function of the object"""
+    if name not in _ATTR_UF:
+        _ATTR_UF[name] = z3.Function(f"attr_{name}/1", Val, Val)
+    return _ATTR_UF[name]
+
+
 class Unsupported(Exception):
     """The engine cannot analyse this construct (tool limit, never a violation)."""
 
@@ -207,8 +217,12 @@ class Closure:
         self.defaults = defaults
 
     def bind(self, obj):
-        return Closure(self.node, self.env, self.qualname, self.module, self_obj=obj,
-                       defaults=self.defaults)
+        c = Closure(self.node, self.env, self.qualname, self.module, self_obj=obj,
+                    defaults=self.defaults)
+        for k in ("owner", "memoised", "wraps_of"):
+            if hasattr(self, k):
+                setattr(c, k, getattr(self, k))
+        return c
 
     def __repr__(self):
         return f"Closure<{self.qualname}>"
@@ -274,6 +288,8 @@ def to_val(x):
         return x.ident
     if getattr(x, "host_symbolic", False) and getattr(x, "ident", None) is not None:
         return x.ident
+    if hasattr(x, "as_val"):
+        return x.as_val()
     if isinstance(x, (type,)) or x is Ellipsis:
         return VObj(z3.IntVal(1_000_000 + _obj_id(x)))
     if isinstance(x, z3.ExprRef) and x.sort() == Val:
